@@ -308,45 +308,48 @@ def rule_stacked_cells_full_width(ctx, rid):
         if sd and sd[0] == "stmt" and "agg" in sd[3]["rv"]:
             pl = op_place(sd[3]["rv"]["ops"][0])
     require(pl is not None and is_bare(pl), "col_width must be stored as Some(local)")
-    defs = [r for r in b.defs()[pl["l"]] if r[0] == "stmt"]
-    seen = {}
-    for r in defs:
-        dbb = r[1]
-        form = norm(b.expr(r[3]["rv"]["use"])) if "use" in r[3]["rv"] else "?"
+    def vert_of(dbb):
+        """truth of the bool *parameter* (`vertical`) governing block dbb, or None"""
         vert = None
         for (a, s) in b.cdeps_transitive(dbb):
             truth, src = edge_is_true(b, a, s)
-            if src and src[0] == "place" and is_bare(src[1]) and b.local_name(src[1]["l"]) == "vertical":
+            if src and src[0] == "place" and is_bare(src[1]) and b.local_ty(src[1]["l"]) == "bool" and \
+                    [r[0] for r in b.defs()[src[1]["l"]]] == ["arg"]:
                 vert = truth
-        seen[vert] = form
-    ctx.check(seen.get(True) == "col_width", rid, "into_cells:stacked-width=column-size", st["span"], b.id,
+        return vert
+
+    env = {}
+    defs = [r for r in b.defs()[pl["l"]] if r[0] == "stmt"]
+    seen = {}
+    colw = None  # the local holding the column size (`col_width`)
+    for r in defs:
+        form = norm(b.canon(r[3]["rv"]["use"], env=env)) if "use" in r[3]["rv"] else "?"
+        v = vert_of(r[1])
+        seen[v] = form
+        if v is True and "use" in r[3]["rv"]:
+            src = op_place(r[3]["rv"]["use"])
+            if src is not None and is_bare(src):
+                colw = src["l"]
+    cw = norm(b.canon(colw, env=env)) if colw is not None else None
+    ctx.check(cw is not None and seen.get(True) == cw and cw.startswith("$"), rid, "into_cells:stacked-width=column-size", st["span"], b.id,
               "on the stacked (vertical) path the cell width is %s; it must be the column size unchanged "
               "(stacked cells have no separators)" % seen.get(True, seen.get(None)))
-    ctx.check(seen.get(False) in ("((col_width + cell.colspan) - 1_usize)", "((col_width + colspan) - 1_usize)"), rid,
+    import re
+    sbs = seen.get(False) or ""
+    ctx.check(cw is not None and re.fullmatch(r"\(\(%s \+ [^()+]*\bcolspan\) - 1_usize\)" % re.escape(cw), sbs) is not None, rid,
               "into_cells:side-by-side-width=Σcols+separators", st["span"], b.id, "side-by-side width is %s" % seen.get(False, seen.get(None)))
-    # and col_width itself: vertical ⇒ col_sizes[colno]
-    for l, loc in enumerate(b.locals):
-        if loc.get("name") == "col_width":
-            forms = {}
-            for r in b.defs()[l]:
-                if r[0] == "stmt" and "use" in r[3]["rv"]:
-                    vert = None
-                    for (a, s) in b.cdeps_transitive(r[1]):
-                        truth, src = edge_is_true(b, a, s)
-                        if src and src[0] == "place" and is_bare(src[1]) and b.local_name(src[1]["l"]) == "vertical":
-                            vert = truth
-                    forms[vert] = norm(b.expr(r[3]["rv"]["use"]))
-                elif r[0] == "call":
-                    vert = None
-                    for (a, s) in b.cdeps_transitive(r[1]):
-                        truth, src = edge_is_true(b, a, s)
-                        if src and src[0] == "place" and is_bare(src[1]) and b.local_name(src[1]["l"]) == "vertical":
-                            vert = truth
-                    forms[vert] = "call:" + str(callee_method(r[2]))
-            ft = forms.get(True, "")
-            ft_ok = ft == "col_sizes[colno]" or (ft.endswith("::index(&col_sizes, colno)") and "+" not in ft)
-            ctx.check(ft_ok and forms.get(False) == "call:sum", rid,
-                      "into_cells:col_width=col_sizes[colno]|Σ", b.span, b.id, str(forms))
+    # and the column size itself: vertical ⇒ col_sizes[colno], else Σ col_sizes[colno..colno+colspan]
+    if colw is not None:
+        forms = {}
+        for r in b.defs()[colw]:
+            if r[0] == "stmt" and "use" in r[3]["rv"]:
+                forms[vert_of(r[1])] = norm(b.canon(r[3]["rv"]["use"], env=env))
+            elif r[0] == "call":
+                forms[vert_of(r[1])] = "call:" + str(callee_method(r[2]))
+        ft = forms.get(True, "")
+        ft_ok = "::index(&" in ft and "col_sizes" in ft and "+" not in ft and "Range" not in ft
+        ctx.check(ft_ok and forms.get(False) == "call:sum", rid,
+                  "into_cells:col_width=col_sizes[colno]|Σ", b.span, b.id, str(forms))
 
 
 def rule_footnote_wrap(ctx, rid):
@@ -371,32 +374,104 @@ def rule_footnote_wrap(ctx, rid):
     ctx.floor(rid, "footnote break tests against self.width", n, 2)
 
 
+def table_locals(F):
+    """The layout variables of render_table_tree, found structurally: W (`col_widths`) and V (`vert_row`) are the
+    arguments of the single RenderTable::into_rows call, S (`col_sizes`) is the Vec<SizeEstimate> local."""
+    b = F.one("render_table_tree")
+    ir = F.one("RenderTable::into_rows")
+    cs = b.calls(lambda cd, t: cd == ir.id)
+    require(len(cs) == 1, "render_table_tree must call RenderTable::into_rows exactly once")
+    t = cs[0][1]
+    w = direct_place(b, t["args"][1])
+    v = direct_place(b, t["args"][2])
+    require(w is not None and is_bare(w) and v is not None and is_bare(v), "into_rows(col_widths, vert_row) arguments must be locals")
+    ss = [l for l, loc in enumerate(b.locals) if loc["ty"] == "std::vec::Vec<SizeEstimate>" and b.defs()[l]]
+    require(len(ss) >= 1, "render_table_tree must hold a Vec<SizeEstimate>")
+    return b, w["l"], v["l"], ss[0]
+
+
+def _is_width_call(b, op):
+    o = origin(b, op)
+    return bool(o and o[0] == "call" and callee_method(o[1]) == "width" and ends(callee_def(o[1]), "Renderer::width"))
+
+
+def addends(s):
+    """top-level addends of a canonical expression `(a + b)` / `((a + b) + c)`"""
+    s = s.strip()
+    if not (s.startswith("(") and s.endswith(")")):
+        return [s]
+    depth = 0
+    inner = s[1:-1]
+    parts, cur = [], ""
+    i = 0
+    # make sure the outer parentheses match each other
+    d = 0
+    for j, ch in enumerate(s):
+        d += ch == "("
+        d -= ch == ")"
+        if d == 0 and j < len(s) - 1:
+            return [s]
+    while i < len(inner):
+        ch = inner[i]
+        depth += ch in "({["
+        depth -= ch in ")}]"
+        if depth == 0 and inner.startswith(" + ", i):
+            parts.append(cur)
+            cur = ""
+            i += 3
+            continue
+        cur += ch
+        i += 1
+    parts.append(cur)
+    if len(parts) == 1:
+        return [s]
+    out = []
+    for p_ in parts:
+        out.extend(addends(p_))
+    return out
+
+
 def rule_min_size_matches_shrink(ctx, rid):
     """INV-SHRINK's premise: the side-by-side / stacked decision compares the renderer width with
     min_size = Σ min_width + (number of columns − 1), i.e. with the same separator count that the shrink loop
     charges (num_cols − 1 over all columns).  If the two disagree a table can be laid out side by side at a
     width where no column has slack: columns holding text are shrunk to zero (their cells are dropped) and the
     decrement can underflow."""
+    import re
     F = ctx.facts
-    b = F.one("render_table_tree")
-    forms = {}
-    for name in ("min_size", "vert_row", "num_cols", "width"):
-        for l, loc in enumerate(b.locals):
-            if loc.get("name") == name:
-                fs = []
-                for r in b.defs()[l]:
-                    if r[1] not in b.reachable():
-                        continue
-                    if r[0] == "stmt" and "use" in r[3]["rv"]:
-                        fs.append(norm(b.expr_top(r[3]["rv"]["use"], expand_named=False)))
-                    elif r[0] == "call":
-                        fs.append(norm("%s(%s)" % (callee_method(r[2]), ", ".join(b.expr(a) for a in r[2]["args"]))))
-                forms.setdefault(name, []).extend(fs)
-    ms = forms.get("min_size", [])
-    ok_ms = len(ms) == 1 and ms[0].startswith("(Iterator::sum(") and "min_width" not in ms[0].split(") + ")[-1] and \
-        ms[0].endswith("+ <impl usize>::saturating_sub(<T, A>::len(&col_sizes), 1_usize))")
+    b, W, V, S = table_locals(F)
+    env = {}
+    s_sym = re.escape(b.canon(S, env=env))
+    w_sym = re.escape(b.canon(W, env=env))
+    sum_min = re.compile(r"Iterator::sum\(Iterator::map\(<impl \[T\]>::iter\(&(<std::vec::Vec<T, A> as std::ops::Deref>::deref\(&)?%s\)?\), "
+                         r"render_table_tree::\{closure\}\{\}\)\)" % s_sym)
+    n_minus_1 = re.compile(r"(<impl usize>::saturating_sub\(<T, A>::len\(&%s\), 1_usize\)|\(<T, A>::len\(&%s\) - 1_usize\))" % (s_sym, s_sym))
+    # the layout decision: a comparison of the renderer width with Σ min_width + (n − 1)
+    decisions = []
+    shrink = []
+    for a in sorted(b.reachable()):
+        if b.term(a)["k"] != "switch":
+            continue
+        neg, src = b.switch_source(a)
+        if src[0] != "bin" or src[1]["bin"] not in ("Gt", "Lt", "Le", "Ge"):
+            continue
+        x, y = src[1]["a"], src[1]["b"]
+        if _is_width_call(b, x):
+            x, y = y, x
+        if not _is_width_call(b, y):
+            continue
+        ex = norm(b.canon(x, env=env))
+        if s_sym.replace("\\", "") in ex:
+            decisions.append((a, ex))
+        elif w_sym.replace("\\", "") in ex:
+            shrink.append((a, ex))
+    ok_ms = False
+    why = "no comparison of a column-size sum with the renderer width found"
+    if len(decisions) == 1:
+        ad = addends(decisions[0][1])
+        ok_ms = len(ad) == 2 and any(sum_min.fullmatch(x) for x in ad) and any(n_minus_1.fullmatch(x) for x in ad)
+        why = "the layout decision compares the width with %s" % decisions[0][1]
     # the summed closure reads est.min_width
-    sums = [t for bb, t in b.calls(lambda cd, t: callee_method(t) == "sum")]
     ok_closure = False
     for (cbb, i, cb, ops, fields) in closure_bodies_created_in(F, b):
         reads = {n for (o, n) in (f for x in cb.reachable() for st in cb.stmts(x) if st["k"] == "assign"
@@ -404,19 +479,22 @@ def rule_min_size_matches_shrink(ctx, rid):
         if reads == {"min_width"} and not cb.calls():
             ok_closure = True
     ctx.check(ok_ms and ok_closure, rid, "min_size=Σmin_width+(n−1)", b.span, b.id,
-              "min_size is computed as %s; the shrink loop charges one separator per column boundary (n − 1), and the "
-              "layout decision must use the same count" % ms)
-    nc = forms.get("num_cols", [])
-    ctx.check(nc == ["len(&col_widths)"], rid, "shrink:num_cols=len(col_widths)", b.span, b.id, str(nc))
-    # col_widths has one entry per col_sizes entry (both branches map over col_sizes)
-    vr = forms.get("vert_row", [])
-    # decision: vert_row = raw || min_size > width || width == 0
-    cmp_ok = False
-    for a in b.reachable():
-        if b.term(a)["k"] == "switch":
-            neg, src = b.switch_source(a)
-            if src[0] == "bin" and src[1]["bin"] in ("Gt", "Lt"):
-                ea, eb = norm(b.expr(src[1]["a"])), norm(b.expr(src[1]["b"]))
-                if (src[1]["bin"] == "Gt" and (ea, eb) == ("min_size", "width")) or (src[1]["bin"] == "Lt" and (ea, eb) == ("width", "min_size")):
-                    cmp_ok = True
-    ctx.check(cmp_ok, rid, "stacked-iff-min_size>width", b.span, b.id, "the layout decision must compare min_size with the renderer width")
+              "%s; the shrink loop charges one separator per column boundary (n − 1 over all columns), and the "
+              "layout decision must use the same count" % why)
+    # the shrink loop's own charge: Σ col_widths + len(col_widths) − 1
+    ok_sh = False
+    if len(shrink) == 1:
+        ex = shrink[0][1]
+        ok_sh = re.fullmatch(r"\(\(Iterator::sum\(<impl \[T\]>::iter\(&<std::vec::Vec<T, A> as std::ops::Deref>::deref\(&%s\)\)\) \+ "
+                             r"<T, A>::len\(&%s\)\) - 1_usize\)" % (w_sym, w_sym), ex) is not None
+    ctx.check(ok_sh, rid, "shrink:charges-Σw+len(w)−1", b.span, b.id, str([e for _a, e in shrink]))
+    # col_widths has one entry per col_sizes entry: every definition of W by a call is a collect over S
+    for r in b.defs()[W]:
+        if r[0] == "call":
+            okc = callee_method(r[2]) == "collect" and s_sym.replace("\\", "") in b.canon(r[2]["args"][0], env=env) and \
+                not any(m in b.canon(r[2]["args"][0], env=env) for m in ("Iterator::filter", "Iterator::skip", "Iterator::take", "Iterator::chain"))
+            ctx.check(okc, rid, "col_widths:one-entry-per-column", r[2]["span"], b.id, norm(b.canon(r[2]["args"][0], env=env))[:120])
+    # the decision feeds V: on the `too narrow` edge V becomes true
+    ctx.check(len(decisions) == 1 and any(r[0] == "stmt" and (op_const((r[3].get("rv") or {}).get("use") or {}) or {}).get("v") == "true"
+                                           and decisions[0][0] in {a for a, _s in b.cdeps_transitive(r[1])} for r in b.defs()[V]),
+              rid, "stacked-iff-min_size>width", b.span, b.id, "the layout decision must set the stacked flag")
